@@ -261,6 +261,10 @@ func (c *Ctx) topReturn(st *State, fr *Frame, results []Val, res *FuncResult) {
 			if cl.Kind != "ensures" {
 				continue
 			}
+			if fc.Abstract {
+				c.V.assumptions["abstract contract of "+c.Key+": postconditions and frame are assumed at call sites (ghost-level summary of the layers below); the body is checked against its call-site / return clauses only"] = true
+				continue
+			}
 			if cl.Assumed {
 				c.V.assumptions["assumed postcondition of "+c.Key+" (used by callers, not proved against the body): "+cl.Src] = true
 				continue
@@ -281,7 +285,7 @@ func (c *Ctx) topReturn(st *State, fr *Frame, results []Val, res *FuncResult) {
 		if fc.Defines != nil {
 			c.oblige(st, fr, "defines", fc.Defines.Fn, "", pos, mkBool(definesStructurallyOK(fr.fn, fc.Defines)), nil, "the function returns one closure whose captured variables are exactly the named parameters, in order")
 		}
-		if fc.HasMod {
+		if fc.HasMod && !fc.Abstract {
 			c.frameObligations(st, fr, pos)
 		}
 	}
